@@ -35,7 +35,89 @@ func TestC09(t *testing.T) {
 		}
 	}
 	c09DecoderCuts(t, R)
+	c09PumpWriteFault(R)
 	R.Finish(t)
+}
+
+// flakyWriter accepts everything except for ONE write that fails part-way at byte offset failAt (a disk
+// that was full for a moment, a pipe whose reader stalled).
+type flakyWriter struct {
+	buf    []byte
+	failAt int
+	failed bool
+}
+
+func (w *flakyWriter) Write(p []byte) (int, error) {
+	if !w.failed && len(w.buf)+len(p) > w.failAt {
+		n := w.failAt - len(w.buf)
+		w.buf = append(w.buf, p[:n]...)
+		w.failed = true
+		return n, fmt.Errorf("no space left on device")
+	}
+	w.buf = append(w.buf, p...)
+	return len(p), nil
+}
+
+// c09PumpWriteFault: the attack command's result pump with an output that fails once, part-way through a
+// record, at every byte offset of the third of six records. What ends up in the output decodes to exactly
+// the records whose Encode call was acknowledged - a torn record is the END of the stream, nothing is
+// appended behind it.
+func c09PumpWriteFault(R *ev.Run) {
+	p := cresPool()
+	rs := []vegeta.Result{p[1], p[4], p[5], p[1], p[4], p[5]}
+	clean := cresEncode("gob", rs)
+	var ends []int
+	{
+		var b bytes.Buffer
+		e := vegeta.NewEncoder(&b)
+		for i := range rs {
+			r := rs[i]
+			e.Encode(&r)
+			ends = append(ends, b.Len())
+		}
+	}
+	_ = clean
+	for failAt := ends[1]; failAt < ends[2]; failAt++ {
+		w := &flakyWriter{failAt: failAt}
+		real := vegeta.NewEncoder(w)
+		acked := 0
+		enc := vegeta.Encoder(func(r *vegeta.Result) error {
+			err := real(r)
+			if err == nil {
+				acked++
+			}
+			return err
+		})
+		res := make(chan *vegeta.Result)
+		done := make(chan error, 1)
+		go func() { done <- processAttack(vegeta.NewAttacker(), res, enc, make(chan os.Signal, 1), nil) }()
+		returned := false
+		for i := range rs {
+			r := rs[i]
+			r.Seq = uint64(i)
+			select {
+			case res <- &r:
+			case <-done:
+				returned = true
+			}
+			if returned {
+				break
+			}
+		}
+		if !returned {
+			close(res)
+			<-done
+		}
+		R.Eval(1)
+		R.Trans(len(rs))
+		R.Distinct(fmt.Sprint("pumpfault", failAt))
+		got, _ := cresDecodeAll(vegeta.NewDecoder(bytes.NewReader(w.buf)), len(rs)+1)
+		if len(got) != acked {
+			R.Violation("cli:attack:records-acknowledged-after-a-failed-write-do-not-decode", map[string]any{"write_failed_at_byte": failAt, "acknowledged_encode_calls": acked, "records_the_output_decodes_to": len(got), "bytes_in_output": len(w.buf)})
+			break
+		}
+	}
+	R.Part("pump", "write fault offsets", ends[2]-ends[1])
 }
 
 // c09DecoderCuts: the file a killed writer left behind, read the way report,
